@@ -160,3 +160,9 @@ Qed.
 
 Lemma Qcompare_z : forall a b, (inject_Z a ?= inject_Z b)%Q = (a ?= b)%Z.
 Proof. intros. unfold Qcompare, inject_Z. cbn. now rewrite !Z.mul_1_r. Qed.
+
+Lemma length_concat_uniform : forall {A} (rows : list (list A)) N,
+  Forall (fun r => length r = N) rows -> length (concat rows) = (length rows * N)%nat.
+Proof.
+  intros A rows N H. induction H as [|r rs Hr _ IH]; [reflexivity|]. cbn [concat length]. rewrite app_length, IH, Hr. lia.
+Qed.
